@@ -7,8 +7,9 @@ import vlib
 PROPS = ("C07", "C12")
 _NOTE = ("SQLite serialises write transactions, so the real schedules differ only in the order in which concurrent calls "
          "acquire the writer lock; the optimistic-lock CAS is not what provides atomicity on SQLite and its removal alone "
-         "would not be observable here; PostgreSQL is not available offline. The storage-outbox variant of C07 is checked "
-         "by the storage outbox module.")
+         "would not be observable here; PostgreSQL is not available offline. The storage-outbox path of C07 (a conditional write-through call "
+         "while writes of the same key are queued) is covered by the storage outbox pipeline (StorageOutbox.tla, CondSound, "
+         "forced 'sync' schedules), which runs as a leg of the C07 check.")
 _TECH = "TLA+ register model, TLC model checking, TLC-generated concurrent client scripts run on real storage, TLC linearisation search over the recorded Invoke/Return history"
 CHECKS = {
     "C07": {"text": "CondWrite.tla models one key as a register with Invoke/Lin/Return per call; TLC proves INMExclusive and "
@@ -96,6 +97,31 @@ def validate(ctx, path):
     raise vlib.Infra("trace validation failed to run: %s\n%s" % (r.outcome, r.output[-3000:]))
 
 
+def outbox_leg(ctx):
+    """C07 also speaks about the storage-outbox path (conditional writes that are written through while unconditional
+    writes of the same key are still queued).  That path is modelled by StorageOutbox.tla and forced onto the real
+    code by the storage outbox pipeline (modules/storageoutbox.py, CondSound + forced 'sync' schedules); it runs here
+    as a leg of the C07 check and reports under C07."""
+    import subprocess
+    import sys
+    env = dict(os.environ, VERIF_REPORT_AS="C07", VERIF_NO_EVIDENCE="1", VERIF_SEED=str(ctx.seed))
+    p = subprocess.run([sys.executable, os.path.join(vlib.VERIF, "bin", "check"), "C21", ctx.tier], env=env,
+                       capture_output=True, text=True, timeout=6 * 3600)
+    nviol = 0
+    for ln in p.stdout.splitlines():
+        if ln.startswith("VIOLATION ") or ln.startswith("KNOWN-FINDING:") or ln.lstrip().startswith("detail:"):
+            print(ln, flush=True)
+            if ln.startswith("VIOLATION "):
+                nviol += 1
+    tail = [ln for ln in p.stdout.splitlines() if "done:" in ln or "driver:" in ln]
+    ctx.extra["storage_outbox_leg"] = {"exit": p.returncode, "summary": tail[-2:]}
+    ctx.log("storage outbox leg: exit %d %s" % (p.returncode, tail[-1] if tail else ""))
+    if p.returncode == 1:
+        ctx.violations += max(nviol, 1)
+    elif p.returncode != 0:
+        raise vlib.Infra("storage outbox leg failed (exit %d): %s" % (p.returncode, p.stdout[-1500:]))
+
+
 def run(ctx):
     ctx.mc("CondWrite", "CondWrite.MC.cfg", timeout=900, subst={"MaxOps": ctx.pick("3", "4")})
     drv = ctx.gobuild("condwrite")
@@ -162,6 +188,8 @@ def run(ctx):
                 ctx.traces += k
                 ctx.events += sum(len(r) for r in pending[:k])
                 pending = pending[k + 1:]
+    if ctx.prop == "C07":
+        outbox_leg(ctx)
     # binding self-test: corrupt one successful result and require rejection
     lines = vlib.read_ndjson(ctx.path("trace-%s.ndjson" % stacks[0]))
     rs = split_rounds(lines)
